@@ -205,7 +205,7 @@ print(%(verdict)r)
 '''
 
 
-@harness(['C11'], 'supp.scope.SourceScope.all_names / supp.linter.lint / supp.assistant.location [positions of every binding on a corpus]',
+@harness(['C11', 'C13'], 'supp.scope.SourceScope.all_names / supp.linter.lint / supp.assistant.location [positions of every binding on a corpus]',
          bounded='7 programs holding every binding construct (imports of every form over one and several lines, every parameter kind, tuple / starred / '
                  'chained / annotated targets, for / with / except / comprehension / walrus / lambda / def / class / async def, PEP 695 headers, match '
                  'captures) in conventional and awkward layouts (continuation lines inside an indented block, tabs and runs of blanks before a name, '
